@@ -59,7 +59,7 @@ def generate(prop, rng, seed, index, tier):
                 g.graph.pop()
                 continue
             # restrictions of the Dask API: accumulate/starmap/map take no stream kwargs
-            if n['op'] == 'map' and n['fn'][0] in ('fanout', 'totuple'):
+            if n['op'] == 'map' and n['fn'][0] in ('fanout', 'totuple', 'falsy'):
                 n['fn'] = ['tag', 3]
                 g.types[n['id']] = ('fix', (gen.INT, g.types[n['up'][0]]))
             if n['op'] == 'starmap':
